@@ -24,5 +24,9 @@ CHECK = {
                   "harness": {"middleware/views": ["zz_verif_c17_*_test.go"]}},
         "pipeline": {"pkg": "internal/verifshim/h_c17", "run": "TestVerifC17Pipeline",
                      "harness": {"middleware": ["zz_verif_export_c17.go"]}, "shards": 7, "gomaxprocs": 4},
+        # the access list at the real server entries, slabs recycled between clients (every <= 3-client sequence)
+        "server": {"pkg": "server", "run": "TestVerifC17Server",
+                   "harness": {"server": ["zz_verif_srv_*.go", "zz_verif_c05_test.go", "zz_verif_c06_test.go", "zz_verif_c17_server_test.go"], "middleware": ["zz_verif_export.go"]},
+                   "stub_tests": ["server"], "budget_s": {"quick": 60, "thorough": 240}},
     },
 }
